@@ -41,7 +41,7 @@ Definition total_table (l : list (opt * oval)) (o : opt) : oval :=
 Definition env_equiv (a b : env) : bool :=
   forallb (fun key => opt_str_eqb (lookup_env key a) (lookup_env key b)) (map fst a ++ map fst b).
 
-Definition call_eqb (a b : call) : bool :=
+Definition call_eqb (a b : started) : bool :=
   match a, b with
   | None, None => true
   | Some (c1, s1, e1), Some (c2, s2, e2) => String.eqb c1 c2 && oval_eqb s1 s2 && env_equiv e1 e2
@@ -75,7 +75,7 @@ Definition corr (x : case) : bool :=
   | COpts c parent command k obs => outcome_eqb (run_model c parent command k) obs
   | CCtx cc prog calls final raised =>
       let '(st, cs, r) := run_program cc prog in
-      list_eqb call_eqb cs calls && cstate_eqb st final && oxkind_eqb r raised
+      list_eqb outcome_eqb cs calls && cstate_eqb st final && oxkind_eqb r raised
   | CCli a lower env_var parent command k ot ort obs =>
       dict_equiv (overrides_of a) ot && dict_equiv ot (overrides_of a)
       && opt_str_eqb (runtime_path_of a env_var) ort
